@@ -10,6 +10,9 @@ WIRE = ['theories/Wire/Cbor.v', 'theories/Wire/CborFloat.v', 'theories/Wire/Cbor
         'theories/Wire/Msgpack.v', 'theories/Wire/MsgpackProofs.v',
         'theories/Wire/Simple.v', 'theories/Wire/SimpleProofs.v', 'theories/Wire/SimpleTotal.v', 'theories/Wire/SimpleDepth.v', 'theories/Wire/SimpleSkip.v',
         'theories/Wire/Binc.v', 'theories/Wire/BincProofs.v',
+        'theories/Wire/Json.v', 'theories/Wire/JsonProofs.v', 'theories/Wire/JsonRT.v', 'theories/Wire/JsonTotal.v', 'theories/Wire/JsonLeaf.v',
+        'theories/C09/Spec.v', 'theories/C09/Model.v', 'theories/C09/ProofsStr.v', 'theories/C09/ProofsNum.v',
+        'theories/C09/ProofsQuote.v', 'theories/C09/ProofsUint.v', 'theories/C09/ProofsParse.v',
         'theories/Wire/Item.v', 'theories/Base/Outcome.v', 'theories/Gen/Consts.v', 'theories/Gen/Leaf.v']
 
 SPEC = {
@@ -28,7 +31,7 @@ SPEC = {
         'time and memory are MODEL counts in the theorems (fuel of the wire models, steps of the walker skeleton C02/Steps.v, allocation requests of the run model C02/Alloc.v whose premises wf are the decoder invariants proved elsewhere (progress: W*_progress, depth: C14) or read off kSlice/kMap (pre-sizing by decInferLen, growth by append) and are NOT derived from the wire models inside Coq); the harness measures the real ones (/gc/heap/allocs:bytes delta, wall clock) against K0 + K1*len and K2 + K3*len with generous constants: K0 = 70 MB + levels*max(1024,MaxInitLen)*2*unit (+ reader buffer), K1 = 1024 + 8*unit (16 for a destination without containers: string, []byte, numbers); where the number of values nv in the input is known by construction (streams bigscalar, symbols) the bound is K0 + per*nv + 16*len with per = 64 + 8*unit for containers of scalars/strings only and K1 otherwise, K2 = 0.4 s, K3 = 5 us/byte; MaxInitLen ranges over {MinInt, -1, 0, 1, 16, 1200, 4096, 70000}; destinations include zero-size element types (map[struct{}]struct{}, []struct{}, [][0]int); unit = largest element size of the destination type (48 for interface{} containers), levels = MaxDepth for interface{}/Raw/recursive types else the static container depth',
         'the 64 MB in K0 is usableByteSlice: an array head claiming n elements decoded as bytes (into []byte or string destinations, map keys, struct field names) allocates min(n, 64 MB) before the first element is read; every other claimed length is capped by decInferLen at max(1024, MaxInitLen) elements',
         'workers run with RLIMIT_AS = 6 GB and debug.SetMaxStack(64 MB); a fatal exit or a stall beyond 20 s + 0.2 ms per input byte is attributed to the input being decoded',
-        'the wire models cover Decode(&interface{}) and Decode(&Raw) from []byte for cbor, msgpack, simple, binc (outcome class + NumBytesRead compared as Coq cases); typed destinations, io.Reader transports, the other option flags and json are covered by the oracle only',
+        'the wire models cover Decode(&interface{}) and Decode(&Raw) from []byte for cbor, msgpack, simple, binc (outcome class + NumBytesRead compared as Coq cases); typed destinations, io.Reader transports and the other option flags are covered by the oracle only; json: the theorems C02_json_* are stated over the wire model Wire/Json.v (decode into interface{} incl. map[string]interface{} keys, skip/Raw), tied to json.go by the check Wjson on every run; in this check json inputs go through the API-level oracle only (no Coq cases)',
         'msgpack model cases run with MapValueReset=true (the wire model assumption); repeated map keys are outside the cbor/simple/binc models and not compared',
     ],
     'trusted_extra': ['modelled, not verified: the four wire models; decInferLen / usableByteSlice / maxInitLen as transcribed by hand in C02/Alloc.v (the translator does not handle the local const block of decInferLen) and tied by the leaf stream through the hook VerifC02DecInferLen / VerifC02UsableByteSliceLen; GC, real memory, wall time and the recover at the Decode boundary are runtime'],
@@ -43,6 +46,6 @@ def main(chk):
 MANIFEST = {
     'category': 'proof',
     'technique': 'Coq: per format, decoding any byte list with fuel linear in its length never runs out of fuel (assembled by exact from the wire-layer totality lemmas), every exceptional outcome is an Err class the Decode boundary recovers, step and allocation-request counts of instrumented models are linear in the input length with the caps of decInferLen / usableByteSlice / MaxInitLen (containerLenNil from Gen/Consts.v; decInferLen / usableByteSlice transcribed by hand and tied by a leaf correspondence stream); vm_compute correspondence of outcome class and NumBytesRead on hostile inputs; API-level oracle in subprocess workers (address-space limit, stack cap, watchdog) over format x destination x options x transport with hostile lengths in every length position, truncations, byte flips, random bytes and all 65792 one- and two-byte inputs',
-    'text': 'PARTIAL. Proved on the models (every byte list, option vector): C02_*_terminates (fuel K*(len+1) suffices, never OutOfFuel) for cbor, msgpack, simple, binc on the interface{} path and the skip/Raw walker; C02_only_recoverable; C02_alloc (allocation requests of every run tree satisfying the decoder invariants <= MaxDepth*max(1024,MaxInitLen)*U + (KL+64+13U)*len, whatever lengths are claimed); C02_walker_steps_partial (a step-counting skeleton of the recursive walkers takes <= 4*len+2 steps for EVERY progressing head parser; not instantiated per format: there is no per-format C02_F_steps, the wire models expose fuel, not steps); C02_json_skip_terminates_partial (json: skip scanner only). The model decides termination, step and allocation-request COUNTS; real time, GC, resident memory, the panic->error recover and memory safety of unsafe are runtime and are only observed by the harness. Typed destinations, io.Reader and json: harness oracle only.',
+    'text': 'PARTIAL. Proved on the models (every byte list, option vector): C02_*_terminates (fuel K*(len+1) suffices, never OutOfFuel) for cbor, msgpack, simple, binc on the interface{} path and the skip/Raw walker; C02_only_recoverable; C02_alloc (allocation requests of every run tree satisfying the decoder invariants <= MaxDepth*max(1024,MaxInitLen)*U + (KL+64+13U)*len, whatever lengths are claimed); C02_walker_steps_partial (a step-counting skeleton of the recursive walkers takes <= 4*len+2 steps for EVERY progressing head parser; not instantiated per format: there is no per-format C02_F_steps, the wire models expose fuel, not steps); C02_json_terminates / C02_json_terminates_anyleaf (json, FULL on the wire model Wire/Json.v: Decode(&interface{}) with the same fuel K*(len+1), a decode call from every tokenizer state / depth / position incl. map keys and the DecodeStringAsBytes key read, sequences of Decode calls on one Decoder, the skip scanner and Raw capture never run out of fuel, for every leaf implementation with a total string decoder and unconditionally for the C09 string code, i.e. the leaf the Wjson correspondence runs), C02_only_recoverable_json, C02_json_skip_terminates_partial (older, skip scanner only). The model decides termination, step and allocation-request COUNTS; real time, GC, resident memory, the panic->error recover and memory safety of unsafe are runtime and are only observed by the harness. Typed destinations and io.Reader: harness oracle only; the json theorems are over Wire/Json.v, whose correspondence with the implementation is run by the check Wjson (this check runs json through the API-level oracle only).',
     'note': 'Findings made by this check and repaired in /repo: F02-2 (negative MaxInitLen lifted every cap of the io transport), F02-3 (decInferLen did not cap zero-size element types: map buckets sized by the claimed length); F10-1 (cbor tag 4/5 head compared with 82 decimal) surfaced as a correspondence mismatch here and was repaired by the cbor wire check. K0 is large by design of the code (64 MB usableByteSlice cap; MaxDepth * 1024 elements pre-sized per open container): the allocation oracle flags only gross violations (an uncapped claimed length). Trusted: Coq kernel, hand-written models, translator for decInferLen, harness and its constants.',
 }
